@@ -248,6 +248,10 @@ func (s *listSys) Key() string {
 }
 
 func (s *listSys) delims() []string {
+	if s.prop == "C04" && s.versioned {
+		// (the paging walks of the versioned plan are the costly ones; the plain plans walk with every delimiter)
+		return []string{"", "/", s.u.multi}
+	}
 	return []string{"", "/", s.u.other, s.u.multi}
 }
 
@@ -489,7 +493,7 @@ func (s *listSys) checkPaging() ([]*engine.Violation, int64) {
 			}
 			if !paginates {
 				// fallback path: complete listing, IsTruncated=false (or 501 when configured)
-				for _, q := range []string{"max-keys=1", "max-keys=1&marker=" + urlq(firstOr(keys, "a")), "list-type=2&max-keys=2&start-after=" + urlq(firstOr(keys, "a")), "max-keys=1000"} {
+				for _, q := range []string{"", "list-type=2", "max-keys=1", "max-keys=1&marker=" + urlq(firstOr(keys, "a")), "list-type=2&max-keys=2&start-after=" + urlq(firstOr(keys, "a")), "max-keys=1000"} {
 					lp := s.w.List(s.bucket, joinQ(base, q))
 					evals++
 					bad := func(field, msg string) {
@@ -499,7 +503,8 @@ func (s *listSys) checkPaging() ([]*engine.Violation, int64) {
 						bad("panic@"+drv.PanicFrame(lp.Panic), firstLine(lp.Panic))
 						continue
 					}
-					if s.w.Cfg.FailOnUnimplPage {
+					if s.w.Cfg.FailOnUnimplPage && strings.Contains(q, "max-keys") {
+						// (a request without any paging parameter asks for no page: nothing to refuse)
 						if lp.Status != 501 || lp.Code != "NotImplemented" {
 							bad("status", fmt.Sprintf("expected 501 NotImplemented, got %d %s", lp.Status, lp.Code))
 						}
@@ -809,8 +814,10 @@ func runList(c *engine.Ctx, prop string) {
 	var foreign int64
 	plans := listPlans(c, prop)
 	c.SpecBudget = c.Budget() / time.Duration(len(plans))
-	for _, pl := range plans {
+	for i, pl := range plans {
 		pl := pl
+		// what the quick plans leave of their share goes to the later, larger ones
+		c.SpecBudget = time.Until(c.Deadline) / time.Duration(len(plans)-i)
 		name := prop + "/" + worldName(pl.cfg) + "/" + pl.u.name
 		if pl.versioned {
 			name += "/versioned"
